@@ -113,6 +113,10 @@ def generate(rng, tier, index):
             st = {'actor': a, 'ver': list(ver), 'items': [op]}
             if r.random() < 0.3:
                 st['cred'] = ['user-%d' % a, 'pw-' + ctx.rbytes(8)]
+                if r.random() < 0.3 and ver >= (1, 1):
+                    st['cred'] = [{'serial': 'sn-1',
+                                   'password': 'pw-' + ctx.rbytes(8),
+                                   'machine': 'm-1'}]
             steps.append(st)
             if r.random() < 0.5 and ctx.objs:
                 steps.append({'actor': a, 'ver': [1, 2], 'items': [
@@ -389,7 +393,14 @@ def execute(plan):
                     rq['actor'] = ai
                 collect_canaries(rq.get('items'), canaries)
                 if rq.get('cred'):
-                    passwords.add(rq['cred'][1])
+                    cl_ = rq['cred']
+                    if cl_ and not isinstance(cl_[0], (list, tuple, dict)):
+                        cl_ = [cl_]
+                    for c_ in cl_:
+                        pw_ = c_.get('password') if isinstance(c_, dict) \
+                            else c_[1]
+                        if pw_:
+                            passwords.add(pw_)
                     probes['password_credential'] += 1
                 disk = st.get('disk')
                 if disk:
